@@ -10,7 +10,9 @@ def suites : List (String × Suite) := [
   ("c19", Tally.Drv.C19.suite),
   ("thrift", Tally.Drv.Thrift.suite),
   ("c20", Tally.Drv.C20.suite),
-  ("c18", Tally.Drv.C18.suite)
+  ("c18", Tally.Drv.C18.suite),
+  ("registry", Tally.Drv.Registry.suite),
+  ("c09", Tally.Drv.C09.suite)
 ]
 
 partial def loop (inp : IO.FS.Stream) (out : IO.FS.Stream) (s : Suite) (st : s.σ) : IO Unit := do
